@@ -285,7 +285,7 @@ theorem pyMod_range (x d : Int) (hd : 0 < d) : 0 ≤ pyMod x d ∧ pyMod x d < d
 
 theorem rollStep_exact (t : IdxTy) (kind : ShiftKind) (c sh n : Int) (hsh : t.fits sh) (hn : t.fits n)
     (hnsh : t.fits (n + sh)) (hc0 : 0 ≤ c) (hcn : c < n) (hkind : kind = .pyInt ∨ t.signed = true) :
-    rollStep t kind c sh n = .ok (pyMod (c + sh) n) ∧ 0 ≤ pyMod (c + sh) n ∧ pyMod (c + sh) n < n := by
+    rollStepW t kind c sh n = .ok (pyMod (c + sh) n) ∧ 0 ≤ pyMod (c + sh) n ∧ pyMod (c + sh) n < n := by
   have hr := pyMod_range (c + sh) n (by omega)
   have hsum : t.fits (c + sh) := by
     by_cases h : 0 ≤ sh
@@ -305,7 +305,7 @@ theorem rollStep_exact (t : IdxTy) (kind : ShiftKind) (c sh n : Int) (hsh : t.fi
       have hw := fits_widen hs 64 hsum
       simp only [iaddNp, promote, hs, i64, if_true, Bool.not_true, Bool.and_false, Bool.false_eq_true, if_false,
         wrap_of_fits hw, wrap_of_fits hsum]
-  simp only [rollStep, hadd, bind, Except.bind, arrPy, hn, if_true, Op.eval, wrap_of_fits hres]
+  simp only [rollStepW, hadd, bind, Except.bind, arrPy, hn, if_true, Op.eval, wrap_of_fits hres]
 
 theorem rollAxis_exact (t : IdxTy) (kind : ShiftKind) (n : Int) (shs : List Int) (hn : t.fits n)
     (hshs : ∀ sh ∈ shs, t.fits sh ∧ t.fits (n + sh)) (hkind : kind = .pyInt ∨ t.signed = true) :
